@@ -329,6 +329,7 @@ func (g *FuncGen) alloc(x *ssa.Alloc) {
 	r := g.newRef(x.Name())
 	if g.nonEsc[x] {
 		g.addLocalRef(r, pt, 0)
+		g.ownRefs = append(g.ownRefs, r)
 	}
 	switch {
 	case isStructType(pt):
@@ -1313,6 +1314,7 @@ func (g *FuncGen) makeMap(x *ssa.MakeMap) {
 	r := g.newRef(x.Name())
 	if g.nonEsc[x] {
 		g.localRefs = append(g.localRefs, r)
+		g.ownRefs = append(g.ownRefs, r)
 	}
 	k := c.sortOf(m.Key())
 	empty := fmt.Sprintf("((as const (Array %s Bool)) false)", k)
